@@ -93,6 +93,12 @@ type recogniser struct {
 	toks []htok
 	far  int
 	memo map[string][]int
+	// keyFail[j] = i: an Association was attempted at token i, its key
+	// (an intrinsic) matched, and the ":" expected at token j was missing.
+	keyFail map[int]int
+	// kindMismatch[j]: token j is a Catalog/Map type closing a sequence of
+	// plain values (the parser requires associations there).
+	kindMismatch map[int]bool
 }
 
 func (r *recogniser) term(i int, kind, text string) []int {
@@ -151,13 +157,22 @@ func (r *recogniser) memoed(name string, i int, f func() []int) []int {
 
 func (r *recogniser) collection(i int) []int {
 	return r.memoed("C", i, func() []int {
-		a := r.term(i, "delimiter", "[")
-		a = r.each(a, r.items)
-		a = r.each(a, func(j int) []int { return r.term(j, "delimiter", "]") })
-		a = r.each(a, func(j int) []int { return r.term(j, "delimiter", "(") })
-		a = r.each(a, func(j int) []int { return r.term(j, "type", "") })
-		a = r.each(a, func(j int) []int { return r.term(j, "delimiter", ")") })
-		return a
+		open := r.term(i, "delimiter", "[")
+		finish := func(from []int, valuesOnly bool) []int {
+			a := r.each(from, func(j int) []int { return r.term(j, "delimiter", "]") })
+			a = r.each(a, func(j int) []int { return r.term(j, "delimiter", "(") })
+			a = r.each(a, func(j int) []int {
+				if valuesOnly && j < len(r.toks) && r.toks[j].Kind == "type" && (r.toks[j].Text == "Catalog" || r.toks[j].Text == "Map") {
+					r.kindMismatch[j] = true
+					return nil
+				}
+				return r.term(j, "type", "")
+			})
+			return r.each(a, func(j int) []int { return r.term(j, "delimiter", ")") })
+		}
+		vals := r.each(open, r.valueItems)
+		rest := r.each(open, r.otherItems)
+		return union(finish(vals, true), finish(rest, false))
 	})
 }
 
@@ -167,7 +182,13 @@ func (r *recogniser) value(i int) []int {
 
 func (r *recogniser) assoc(i int) []int {
 	a := r.intrinsic(i)
-	a = r.each(a, func(j int) []int { return r.term(j, "delimiter", ":") })
+	a = r.each(a, func(j int) []int {
+		c := r.term(j, "delimiter", ":")
+		if len(c) == 0 {
+			r.keyFail[j] = i
+		}
+		return c
+	})
 	return r.each(a, r.value)
 }
 
@@ -199,10 +220,14 @@ func (r *recogniser) multi(i int, item func(int) []int) []int {
 	return out
 }
 
-func (r *recogniser) items(i int) []int {
+// valueItems: a non-empty sequence of plain values.
+func (r *recogniser) valueItems(i int) []int {
+	return union(r.list(i, r.value), r.multi(i, r.value))
+}
+
+// otherItems: the empty forms and sequences of associations.
+func (r *recogniser) otherItems(i int) []int {
 	out := []int{i} // " " : no values
-	out = union(out, r.list(i, r.value))
-	out = union(out, r.multi(i, r.value))
 	out = union(out, r.term(i, "delimiter", ":"))
 	out = union(out, r.list(i, r.assoc))
 	out = union(out, r.multi(i, r.assoc))
@@ -212,16 +237,35 @@ func (r *recogniser) items(i int) []int {
 // viablePrefix returns the number of leading tokens that form a viable prefix
 // of some sentence (== len(toks) when the whole text is a sentence).
 func viablePrefix(toks []htok) (far int, sentence bool) {
-	r := &recogniser{toks: toks, memo: map[string][]int{}}
+	far, sentence, _ = viablePrefixKey(toks)
+	return
+}
+
+// viablePrefixKey additionally returns the index of the token that starts an
+// unfinished association key ending right before the first offending token
+// (-1 if there is none): a parser may name either.
+func viablePrefixKey(toks []htok) (far int, sentence bool, keyStart int) {
+	far, sentence, keyStart, _ = viablePrefixFull(toks)
+	return
+}
+
+// viablePrefixFull also reports whether the first offending token is a
+// Catalog/Map type that closes a sequence of plain values.
+func viablePrefixFull(toks []htok) (far int, sentence bool, keyStart int, kindMismatch bool) {
+	r := &recogniser{toks: toks, memo: map[string][]int{}, keyFail: map[int]int{}, kindMismatch: map[int]bool{}}
 	a := r.collection(0)
 	for len(a) > 0 {
 		ends := r.each(a, func(j int) []int { return r.term(j, "EOF", "") })
 		if len(ends) > 0 {
-			return len(toks), true
+			return len(toks), true, -1, false
 		}
 		a = r.each(a, func(j int) []int { return r.term(j, "EOL", "") })
 	}
-	return r.far, false
+	keyStart = -1
+	if k, ok := r.keyFail[r.far]; ok {
+		keyStart = k
+	}
+	return r.far, false, keyStart, r.kindMismatch[r.far]
 }
 
 // ---- canonical tree of a parsed value (public API only) ----------------------------------------
